@@ -33,6 +33,13 @@ LAYERS: Dict[str, Dict[str, Any]] = {
                          BinOps='NoStr', CmpOps='NoStr', Funcs1='NoStr', Funcs2='NoStr', UseNeg='FALSE', UseParen='FALSE', UseCond='FALSE'),
     'merge3': dict(MaxStmts=3, MaxLeaves=1, MaxNodes=1, MaxNames=2, Kinds='AllKinds', Idxs='ShapeIdxs', LhsIdxs='Lhs0', Nums='NoStr',
                    BinOps='NoStr', CmpOps='NoStr', Funcs1='NoStr', Funcs2='NoStr', UseNeg='FALSE', UseParen='FALSE', UseCond='FALSE'),
+    # the expression subset common to the Python and Fortran back-ends
+    'fortran': dict(MaxStmts=1, MaxLeaves=2, MaxNodes=4, MaxNames=3, Kinds='AllKinds', Idxs='FortIdxs', LhsIdxs='Lhs0', Nums='FortNums',
+                    BinOps='ArithOps', CmpOps='NoStr', Funcs1='FortF1', Funcs2='PairF2', UseNeg='TRUE', UseParen='TRUE', UseCond='FALSE'),
+    'fortran_small': dict(MaxStmts=1, MaxLeaves=2, MaxNodes=3, MaxNames=2, Kinds='AllKinds', Idxs='FortIdxs', LhsIdxs='Lhs0', Nums='FortNums',
+                          BinOps='ArithOps', CmpOps='NoStr', Funcs1='FortF1', Funcs2='PairF2', UseNeg='TRUE', UseParen='FALSE', UseCond='FALSE'),
+    'fortran_sim': dict(MaxStmts=4, MaxLeaves=5, MaxNodes=10, MaxNames=5, Kinds='AllKinds', Idxs='FortIdxs', LhsIdxs='Lhs0', Nums='FortNums',
+                        BinOps='ArithOps', CmpOps='NoStr', Funcs1='FortF1', Funcs2='PairF2', UseNeg='TRUE', UseParen='TRUE', UseCond='FALSE'),
     # everything, sampled
     'sim': dict(MaxStmts=5, MaxLeaves=5, MaxNodes=10, MaxNames=5, Kinds='AllKinds', Idxs='SimIdxs', LhsIdxs='Lhs01', Nums='SimNums',
                 BinOps='ArithOps', CmpOps='AllCmps', Funcs1='PairF1', Funcs2='PairF2', UseNeg='TRUE', UseParen='TRUE', UseCond='TRUE'),
